@@ -38,14 +38,14 @@ package bastion
 //@   returns (size, proof, cp, err)
 //@   let input     := old(rd_buf[refOf(r)])
 //@   let wellFormed := input == "old " ++ fmt_du(G_n()) ++ "\n" ++ encRest(G_row(), G_off(), 0, G_k(), G_cp())
-//@                     && !rd_err[refOf(r)] && G_k() < 1000000 && (forall j int :: 0 <= j && j < G_k() ==> len(G_row()[G_off() + j]) > 0)
+//@                     && !rd_err[refOf(r)] && G_k() < 1000000 && (forall j int :: 0 <= j && j < G_k() ==> len(G_row()[G_off() + j]) > 0 && len(b64enc(str(G_row()[G_off() + j]))) < 4096)
 //@   // the same request with its (G_j+1)-th proof line replaced by G_bad: a non-empty line that is not base64
 //@   let badLine   := input == "old " ++ fmt_du(G_n()) ++ "\n" ++ encBad(G_row(), G_off(), 0, G_j(), G_bad(), G_tail())
-//@                     && !rd_err[refOf(r)] && G_j() < 1000000 && (forall j int :: 0 <= j && j < G_j() ==> len(G_row()[G_off() + j]) > 0)
+//@                     && !rd_err[refOf(r)] && G_j() < 1000000 && (forall j int :: 0 <= j && j < G_j() ==> len(G_row()[G_off() + j]) > 0 && len(b64enc(str(G_row()[G_off() + j]))) < 4096)
 //@                     && noNL(G_bad()) && len(G_bad()) > 0 && !isB64(G_bad())
 //@   // a request that ends before the blank separator: G_j whole proof lines, then a possibly empty unterminated piece
 //@   let truncated := input == "old " ++ fmt_du(G_n()) ++ "\n" ++ encTr(G_row(), G_off(), 0, G_j(), G_part())
-//@                     && !rd_err[refOf(r)] && G_j() < 1000000 && (forall j int :: 0 <= j && j < G_j() ==> len(G_row()[G_off() + j]) > 0)
+//@                     && !rd_err[refOf(r)] && G_j() < 1000000 && (forall j int :: 0 <= j && j < G_j() ==> len(G_row()[G_off() + j]) > 0 && len(b64enc(str(G_row()[G_off() + j]))) < 4096)
 //@                     && noNL(G_part())
 //@   modifies rd_buf, rd_err
 //@   ghostmodifies n_pb
@@ -62,6 +62,9 @@ package bastion
 //@   ensures[C11.z,C10.z] err == nil ==> cp != nil
 //@   ensures[C11.w] err == nil ==> oldLineOK(lineOf(input))
 //@   ensures[C11.e] !hasLine(input) ==> err != nil
+//@   // a first line that does not fit the line buffer is refused, not read in pieces (the same holds for every proof line: the
+//@   // loop returns an error as soon as ReadLine flags a piece)
+//@   ensures[C11.long] lineLong(input) ==> err != nil
 //@   // instances of the (assumed) facts about the encoding that the proof needs, at the current position
 //@   hint old_ok(G_n())
 //@   hint line_1("old " ++ fmt_du(G_n()), encRest(G_row(), G_off(), 0, G_k(), G_cp()))
